@@ -162,14 +162,15 @@ def doAssign (r : Lv n) (op : AOp) (lhs : Lhs) (rhs : Ex) : Lv n :=
 
 /-- `doJump`: reconcile into the target loop's `after` (break) or `before` (continue),
 then `r.clear()`. A depth that is not an enclosing loop does not occur (the Go code would
-dereference a nil `*loopLivenesses`); the model leaves the state alone. -/
+dereference a nil `*loopLivenesses`; the serialiser rejects such a body); to stay total the
+model then reconciles into `final`. -/
 def doJump (r : Lv n) (σ : St n) (isBreak : Bool) (depth : Nat) : Lv n × St n :=
-  let loops := match σ.loops[depth]? with
-    | some l =>
-      σ.loops.set depth
-        (if isBreak then { l with after := l.after.reconcile r } else { l with before := l.before.reconcile r })
-    | none => σ.loops
-  (Lv.clear, { σ with loops := loops })
+  match σ.loops[depth]? with
+  | some l =>
+    let l' : Loop n :=
+      if isBreak then { l with after := l.after.reconcile r } else { l with before := l.before.reconcile r }
+    (Lv.clear, { σ with loops := σ.loops.set depth l' })
+  | none => (Lv.clear, { σ with final := σ.final.reconcile r })
 
 /-- `doRet`. -/
 def doRet (r : Lv n) (σ : St n) (isYield : Bool) (e : Ex) : Lv n × St n :=
@@ -262,42 +263,46 @@ def fixLoop (step : Loop n → St n → Loop n × St n) (l : Loop n) (σ : St n)
 termination_by l.height
 decreasing_by exact Loop.height_join_lt l _ h
 
+/-- One pass of `doWhile`'s `for` loop over condition and body, started from `l.before`, with
+the loop's own `loopLivenesses` pushed for the body (`h.loops[n] = l`); returns the loop's
+slices as the pass left them. `body` is `doBlock · · n.Body()`. -/
+def whileStep (wt : Bool) (cond : Ex) (body : Lv n → St n → Lv n × St n) (l : Loop n) (σ : St n) :
+    Loop n × St n :=
+  let r := doExpr l.before cond             -- `copy(r, l.before)`; condition
+  -- `else if !n.IsWhileTrue() { l.changed = l.after.reconcile(r) || l.changed }`
+  let l := if wt then l else { l with after := l.after.reconcile r }
+  let p := body r { σ with loops := l :: σ.loops }
+  match p.2.loops with
+  | l' :: outer =>
+    -- `l.changed = l.before.reconcile(r) || l.changed`
+    ({ l' with before := l'.before.reconcile p.1 }, { p.2 with loops := outer })
+  | [] => (l, p.2)
+
 mutual
 /-- One statement of `doBlock`'s switch (`doAssign`, `doExpr`, `doIOManip`, `doIf`, `doVar`,
-`doWhile`; jumps and returns are handled in `doBlock` because they end the block). -/
+`doWhile`; in a block, jumps and returns also end the block, see `doBlock`). -/
 def doStmt (r : Lv n) (σ : St n) : Stmt → Lv n × St n
   | .assign op lhs rhs => (doAssign r op lhs rhs, σ)
   | .expr e => (doExpr r e, σ)
   | .iomanip io arg1 hist body =>
     -- `doIOManip`
-    let r := doExpr r io
-    let r := doExprOpt r arg1
-    let r := doExprOpt r hist
-    doBlock r σ body
+    doBlock (doExprOpt (doExprOpt (doExpr r io) arg1) hist) σ body
   | .ite cond thn els =>
     -- `doIf`: `result` starts all-none; each branch starts from a copy of `r`
     let r := doExpr r cond
-    let (s1, σ) := doBlock r σ thn
-    let result := (Lv.clear : Lv n).reconcile s1
-    let (s2, σ) := doBlock r σ els
-    (result.reconcile s2, σ)
+    let p1 := doBlock r σ thn
+    let p2 := doBlock r p1.2 els
+    (((Lv.clear : Lv n).reconcile p1.1).reconcile p2.1, p2.2)
   | .jump isBreak depth => doJump r σ isBreak depth
   | .ret isYield e => doRet r σ isYield e
   | .var i => (r.lowerWeakToNone i, σ)      -- `doVar`
   | .while wt cond body =>
-    -- `doWhile`
-    let l0 : Loop n := ⟨r, Lv.clear⟩       -- `copy(l.before, r)`
-    let (l, σ) := fixLoop (fun l σ =>
-        let r := doExpr l.before cond       -- `copy(r, l.before)`; condition
-        let l := if wt then l else { l with after := l.after.reconcile r }
-        let (r, σ) := doBlock r { σ with loops := l :: σ.loops } body
-        match σ.loops with
-        | l' :: outer => ({ l' with before := l'.before.reconcile r }, { σ with loops := outer })
-        | [] => (l, σ)) l0 σ
+    -- `doWhile`; `l.before = copy of r`, `l.after = all none`
+    let p := fixLoop (whileStep wt cond (fun r σ => doBlock r σ body)) ⟨r, Lv.clear⟩ σ
     -- `copy(r, l.after)`; plus the repair fixes/C05-liveness-dead-end-loop.patch:
     -- `h.final.reconcile(l.before)`, so that a strong that reached the loop is not
     -- forgotten when the loop has no exit.
-    (l.after, { σ with final := σ.final.reconcile l.before })
+    (p.1.after, { p.2 with final := p.2.final.reconcile p.1.before })
 
 /-- `doBlock`: statements in order; a jump or a `return` ends the block (`break loop`). -/
 def doBlock (r : Lv n) (σ : St n) : List Stmt → Lv n × St n
@@ -307,14 +312,14 @@ def doBlock (r : Lv n) (σ : St n) : List Stmt → Lv n × St n
     | .jump isBreak depth => doJump r σ isBreak depth
     | .ret false e => doRet r σ false e
     | s =>
-      let (r, σ) := doStmt r σ s
-      doBlock r σ rest
+      let p := doStmt r σ s
+      doBlock p.1 p.2 rest
 end
 
 /-- `findVars` for a coroutine: `h.final[i] == livenessStrong` per variable. -/
 def findVars (n : Nat) (body : List Stmt) : Lv n :=
-  let (r, σ) := doBlock (Lv.clear : Lv n) ⟨[], Lv.clear⟩ body
-  σ.final.reconcile r
+  let p := doBlock (Lv.clear : Lv n) ⟨[], Lv.clear⟩ body
+  p.2.final.reconcile p.1
 
 /-- `varResumables` as the sorted list of variable indexes. -/
 def resumables (n : Nat) (body : List Stmt) : List Nat :=
